@@ -512,3 +512,116 @@ func VerifSetInitialDCIDLen(n int) (restore func()) {
 	generateConnectionIDForInitial = func() (protocol.ConnectionID, error) { return protocol.GenerateConnectionID(n) }
 	return func() { generateConnectionIDForInitial = orig }
 }
+
+// ---- traced client connections (simtrace): the pre-authentication events a client connection logged ----
+
+// VerifCAEvent: one qlog event of a client connection, reduced to what the ConnAccept model speaks about.
+type VerifCAEvent struct {
+	Kind     string // "recv" | "drop" | "buffered" | "vn" | "keydiscard-initial" | "closed-remote" | "closed-local"
+	PType    string // initial | handshake | 0RTT | 1RTT | retry | version_negotiation | ""
+	Version  uint32
+	SCID     []byte
+	PN       int64
+	Token    []byte
+	Trigger  string
+	Versions []uint32
+}
+
+// VerifCATraced: a client connection created while the traced hook was installed.
+type VerifCATraced struct {
+	Conn    *Conn
+	Initial VerifCAState // state right after construction
+	rec     *verifRecorder
+}
+
+func (t *VerifCATraced) Events() []VerifCAEvent {
+	var out []VerifCAEvent
+	if t.rec == nil {
+		return nil
+	}
+	t.rec.mu.Lock()
+	evs := append([]qlogwriter.Event(nil), t.rec.evs...)
+	t.rec.mu.Unlock()
+	hdr := func(h qlog.PacketHeader) (string, uint32, []byte, int64) {
+		return string(h.PacketType), uint32(h.Version), h.SrcConnectionID.Bytes(), int64(h.PacketNumber)
+	}
+	for _, e := range evs {
+		switch ev := e.(type) {
+		case qlog.PacketReceived:
+			x := VerifCAEvent{Kind: "recv"}
+			x.PType, x.Version, x.SCID, x.PN = hdr(ev.Header)
+			if ev.Header.Token != nil {
+				x.Token = ev.Header.Token.Raw
+			}
+			out = append(out, x)
+		case qlog.PacketDropped:
+			x := VerifCAEvent{Kind: "drop", Trigger: string(ev.Trigger)}
+			x.PType, x.Version, x.SCID, x.PN = hdr(ev.Header)
+			out = append(out, x)
+		case qlog.PacketBuffered:
+			x := VerifCAEvent{Kind: "buffered"}
+			x.PType, x.Version, x.SCID, x.PN = hdr(ev.Header)
+			out = append(out, x)
+		case qlog.VersionNegotiationReceived:
+			x := VerifCAEvent{Kind: "vn", PType: "version_negotiation"}
+			for _, v := range ev.SupportedVersions {
+				x.Versions = append(x.Versions, uint32(v))
+			}
+			out = append(out, x)
+		case qlog.KeyDiscarded:
+			if ev.KeyType == qlog.KeyTypeClientInitial {
+				out = append(out, VerifCAEvent{Kind: "keydiscard-initial"})
+			}
+		case qlog.ConnectionClosed:
+			k := "closed-local"
+			if ev.Initiator == qlog.InitiatorRemote {
+				k = "closed-remote"
+			}
+			out = append(out, VerifCAEvent{Kind: k})
+		}
+	}
+	return out
+}
+
+// CloseClass: how the connection ended ("" if it is still open), in the classes of VerifCAResult.Closed.
+func (t *VerifCATraced) CloseClass() string {
+	ce := t.Conn.closeErr.Load()
+	if ce == nil {
+		return ""
+	}
+	c := verifCAErrClass(ce.err)
+	if c == "" {
+		c = "nil"
+	}
+	return c
+}
+
+// VerifHookClientConnsTraced is VerifHookClientConns plus a recording qlog trace on every client connection
+// that has none of its own.
+func VerifHookClientConnsTraced(cb func(*VerifCATraced)) (restore func()) {
+	origPlain, origU := newClientConnection, newUClientConnection
+	wrap := func(qt qlogwriter.Trace) (qlogwriter.Trace, *verifRecorder) {
+		if qt != nil {
+			return qt, nil
+		}
+		r := &verifRecorder{}
+		return verifTrace{r}, r
+	}
+	newClientConnection = func(ctx context.Context, conn sendConn, runner connRunner, destConnID, srcConnID protocol.ConnectionID,
+		g ConnectionIDGenerator, sr *statelessResetter, conf *Config, tlsConf *tls.Config, ipn protocol.PacketNumber,
+		enable0RTT, hasNegotiatedVersion bool, qt qlogwriter.Trace, logger utils.Logger, v protocol.Version) *wrappedConn {
+		qt, rec := wrap(qt)
+		wc := origPlain(ctx, conn, runner, destConnID, srcConnID, g, sr, conf, tlsConf, ipn, enable0RTT, hasNegotiatedVersion, qt, logger, v)
+		cb(&VerifCATraced{Conn: wc.Conn, Initial: VerifConnAcceptState(wc.Conn), rec: rec})
+		return wc
+	}
+	newUClientConnection = func(ctx context.Context, conn sendConn, runner connRunner, destConnID, srcConnID protocol.ConnectionID,
+		g ConnectionIDGenerator, sr *statelessResetter, conf *Config, tlsConf *tls.Config, ipn protocol.PacketNumber,
+		enable0RTT, hasNegotiatedVersion bool, qt qlogwriter.Trace, logger utils.Logger, v protocol.Version, spec *QUICSpec) *wrappedConn {
+		qt, rec := wrap(qt)
+		wc := origU(ctx, conn, runner, destConnID, srcConnID, g, sr, conf, tlsConf, ipn, enable0RTT, hasNegotiatedVersion, qt, logger, v, spec)
+		cb(&VerifCATraced{Conn: wc.Conn, Initial: VerifConnAcceptState(wc.Conn), rec: rec})
+		return wc
+	}
+	return func() { newClientConnection, newUClientConnection = origPlain, origU }
+}
